@@ -413,6 +413,17 @@ func TestC07(t *testing.T) {
 			}
 			return
 		}
+		if rf.Kind == "exit" {
+			var xc exitCase
+			if err := json.Unmarshal(rf.Case, &xc); err != nil {
+				t.Fatal(err)
+			}
+			rec.Eval()
+			if msg := checkExit(xc); msg != "" {
+				rec.Violation("exit", xc, msg)
+			}
+			return
+		}
 		var c c07Case
 		if err := json.Unmarshal(rf.Case, &c); err != nil {
 			t.Fatal(err)
@@ -459,6 +470,20 @@ func TestC07(t *testing.T) {
 					}
 				}
 			}
+		}
+	}
+
+	// work done while a limited context is being left (finalisers, close handlers)
+	for i, xc := range exitCases() {
+		if !rec.Mine(i) {
+			continue
+		}
+		rec.Eval()
+		rec.Class("exit-work:" + xc.Carrier + "/" + xc.End)
+		rec.NonTrivial(fmt.Sprint("exit|", xc))
+		if msg := checkExit(xc); msg != "" {
+			rec.Violation("exit", xc, msg+"\n--- program ---\n"+xc.program())
+			return
 		}
 	}
 
